@@ -37,6 +37,13 @@ static void vector_cmp(Src &s, Case &c) { c02::cmp_target<igris::vector<double>,
 VP_TARGET("vector_cmp", vector_cmp,
           "== / != / < of two igris::vector<double> over {0.0, -0.0, NaN, 1.0, 2.5, -1.0} (mostly equal up to the sign of zero) and of two vectors of a trivially "
           "copyable record whose operator== compares one field only, against std::vector; non-trivial = same length with a NaN / negative zero, or records equal by key");
+static void vector_nested(Src &s, Case &c)
+{
+    c02::vec_target<igris::vector<c02::Nest<igris::vector<int>>>, c02::Nest<igris::vector<int>>>(s, c, "igris::vector<Nest{igris::vector<int>}>");
+}
+VP_TARGET("vector_nested", vector_nested,
+          "igris::vector whose elements each hold an igris::vector<int> (value x = x+1 ints equal to x): the same histories; element copies, moves and "
+          "assignments run the inner vector's own copy / move construction and assignment, self-assignment included");
 static void vector_int_big(Src &s, Case &c)
 {
     c02::BigMode bm;
